@@ -10,15 +10,10 @@ Import ListNotations.
 Theorem C16_futures_not_unpin :
   forall sd, In sd structs -> s_future sd = true ->
   forall a, In a (assignments (s_nparams sd)) -> holds structs impls Unpin (s_name sd) a = false.
-Proof.
-  assert (H : forallb (future_not_unpin structs impls) structs = true) by (vm_compute; reflexivity).
-  intros sd Hin Hf a Ha. rewrite forallb_forall in H. specialize (H sd Hin).
-  unfold future_not_unpin in H. rewrite Hf in H. simpl in H.
-  rewrite forallb_forall in H. specialize (H a Ha). destruct (holds _ _ _ _ _); auto; discriminate.
-Qed.
+Proof. apply futures_lift. vm_compute. reflexivity. Qed.
 
 (* at least 12 futures / streams are covered (non-vacuity) *)
-Example C16_future_count : 12 <= length (filter s_future structs).
+Example C16_future_count : 12 <= List.length (filter s_future structs).
 Proof. vm_compute. repeat constructor. Qed.
 
 (* soundness: whenever a public type is Send / Sync for some instantiation of its
@@ -29,13 +24,7 @@ Theorem C16_sound :
   forall a, In a (assignments n) ->
   holds structs impls (r_trait r) (r_name r) a = true ->
   r_never r = false /\ bounds_hold (r_bounds r) a = true.
-Proof.
-  assert (H : forallb (sound_rule structs impls) required = true) by (vm_compute; reflexivity).
-  intros r Hin n Hn a Ha Hh. rewrite forallb_forall in H. specialize (H r Hin).
-  unfold sound_rule in H. rewrite Hn in H. rewrite forallb_forall in H. specialize (H a Ha).
-  rewrite Hh in H. simpl in H. apply andb_true_iff in H. destruct H as [H1 H2].
-  split; auto. destruct (r_never r); auto; discriminate.
-Qed.
+Proof. apply sound_lift. vm_compute. reflexivity. Qed.
 
 (* every type named in the requirement table exists, and every explicit Send / Sync impl of
    the crate is covered by the table *)
@@ -51,12 +40,7 @@ Theorem C16_complete :
   forall a, In a (assignments n) ->
   bounds_hold (r_bounds r) a = true ->
   holds structs impls (r_trait r) (r_name r) a = true.
-Proof.
-  assert (H : forallb (complete_rule structs impls) promised = true) by (vm_compute; reflexivity).
-  intros r Hin n Hn a Ha Hb. rewrite forallb_forall in H. specialize (H r Hin).
-  unfold complete_rule in H. rewrite Hn in H. rewrite forallb_forall in H. specialize (H a Ha).
-  rewrite Hb in H. simpl in H. exact H.
-Qed.
+Proof. apply complete_lift. vm_compute. reflexivity. Qed.
 
 Print Assumptions C16_futures_not_unpin.
 Print Assumptions C16_sound.
